@@ -30,63 +30,130 @@ package engine
 
 //@ iface Matcher.Match(got, d, r) (d1, ok)
 //@   requires d != nil
-//@   ensures [C01] decides-instance: ok == MatchOK(self, got, d, r)
-//@   ensures [C01,C02] binds: ok ==> d1 == MatchD(self, got, d, r)
-//@   ensures [C02] never-rebinds: ok ==> keepsBindings(d, d1)
+//@   ensures [C01] decides-instance: ok == MatchOK(self, got, dmap(d), r)
+//@   ensures [C01,C02] binds: ok ==> dmap(d1) == MatchD(self, got, dmap(d), r)
+//@   ensures [C02] never-rebinds: ok ==> keepsBindings(dmap(d), dmap(d1))
 //@   ensures d1 != nil
 //@   assigns nothing
 
 // A slice pattern without elision: same length, element-wise instances, data threaded left to right.
 //@ func (m SliceMatcher) Match(got, d, r) (d1, ok)
-//@   unfold MatchOK(boxed(m), got, d, r) == (kind(got) == 23 && len(m.Items) == rlen(got) && forall i int {m.Items[i]} :: 0 <= i && i < len(m.Items) ==> MatchOK(m.Items[i], idx(got, i), thrIdx(m.Items, got, d, r, i), r))
-//@   unfold MatchD(boxed(m), got, d, r) == thrIdx(m.Items, got, d, r, len(m.Items))
-//@   unfold thrIdx(m.Items, got, d, r, 0) == d
+//@   unfold MatchOK(boxed(m), got, dmap(d), r) == (kind(got) == 23 && len(m.Items) == rlen(got) && forall i int {m.Items[i]} :: 0 <= i && i < len(m.Items) ==> MatchOK(m.Items[i], idx(got, i), thrIdx(m.Items, got, dmap(d), r, i), r))
+//@   unfold MatchD(boxed(m), got, dmap(d), r) == thrIdx(m.Items, got, dmap(d), r, len(m.Items))
+//@   unfold thrIdx(m.Items, got, dmap(d), r, 0) == dmap(d)
 //@   requires forall i int {m.Items[i]} :: 0 <= i && i < len(m.Items) ==> m.Items[i] != nil
 //@   loop 0
-//@     unfold thrIdx(m.Items, got, d0, r, #k + 1) == MatchD(m.Items[#k], idx(got, #k), thrIdx(m.Items, got, d0, r, #k), r)
+//@     unfold thrIdx(m.Items, got, dmap(d0), r, #k + 1) == MatchD(m.Items[#k], idx(got, #k), thrIdx(m.Items, got, dmap(d0), r, #k), r)
 //@     invariant d != nil
-//@     invariant d == thrIdx(m.Items, got, d0, r, #k)
-//@     invariant forall i int {m.Items[i]} :: 0 <= i && i < #k ==> MatchOK(m.Items[i], idx(got, i), thrIdx(m.Items, got, d0, r, i), r)
-//@     invariant keepsBindings(d0, d)
+//@     invariant dmap(d) == thrIdx(m.Items, got, dmap(d0), r, #k)
+//@     invariant forall i int {m.Items[i]} :: 0 <= i && i < #k ==> MatchOK(m.Items[i], idx(got, i), thrIdx(m.Items, got, dmap(d0), r, i), r)
+//@     invariant keepsBindings(dmap(d0), dmap(d))
 
 // A struct pattern: same struct type, every field an instance, data threaded in field order.
 //@ func (m StructMatcher) Match(got, d, r) (d1, ok)
-//@   unfold MatchOK(boxed(m), got, d, r) == (m.Type == rtype(got) && forall i int {m.Fields[i]} :: 0 <= i && i < len(m.Fields) ==> MatchOK(m.Fields[i], fld(got, i), thrFld(m.Fields, got, d, r, i), r))
-//@   unfold MatchD(boxed(m), got, d, r) == thrFld(m.Fields, got, d, r, len(m.Fields))
-//@   unfold thrFld(m.Fields, got, d, r, 0) == d
+//@   unfold MatchOK(boxed(m), got, dmap(d), r) == (m.Type == rtype(got) && forall i int {m.Fields[i]} :: 0 <= i && i < len(m.Fields) ==> MatchOK(m.Fields[i], fld(got, i), thrFld(m.Fields, got, dmap(d), r, i), r))
+//@   unfold MatchD(boxed(m), got, dmap(d), r) == thrFld(m.Fields, got, dmap(d), r, len(m.Fields))
+//@   unfold thrFld(m.Fields, got, dmap(d), r, 0) == dmap(d)
 //@   requires forall i int {m.Fields[i]} :: 0 <= i && i < len(m.Fields) ==> m.Fields[i] != nil
 //@   loop 0
-//@     unfold thrFld(m.Fields, got, d0, r, #k + 1) == MatchD(m.Fields[#k], fld(got, #k), thrFld(m.Fields, got, d0, r, #k), r)
+//@     unfold thrFld(m.Fields, got, dmap(d0), r, #k + 1) == MatchD(m.Fields[#k], fld(got, #k), thrFld(m.Fields, got, dmap(d0), r, #k), r)
 //@     invariant d != nil
-//@     invariant d == thrFld(m.Fields, got, d0, r, #k)
-//@     invariant forall i int {m.Fields[i]} :: 0 <= i && i < #k ==> MatchOK(m.Fields[i], fld(got, i), thrFld(m.Fields, got, d0, r, i), r)
-//@     invariant keepsBindings(d0, d)
+//@     invariant dmap(d) == thrFld(m.Fields, got, dmap(d0), r, #k)
+//@     invariant forall i int {m.Fields[i]} :: 0 <= i && i < #k ==> MatchOK(m.Fields[i], fld(got, i), thrFld(m.Fields, got, dmap(d0), r, i), r)
+//@     invariant keepsBindings(dmap(d0), dmap(d))
 
 // A non-nil pointer pattern matches only non-nil pointers whose target is an instance.
 //@ func (m PtrMatcher) Match(got, d, r) (d1, ok)
 //@   requires m.Matcher != nil
-//@   unfold MatchOK(boxed(m), got, d, r) == (kind(got) == 22 && !risnil(got) && MatchOK(m.Matcher, relem(got), d, r))
-//@   unfold MatchD(boxed(m), got, d, r) == MatchD(m.Matcher, relem(got), d, r)
+//@   unfold MatchOK(boxed(m), got, dmap(d), r) == (kind(got) == 22 && !risnil(got) && MatchOK(m.Matcher, relem(got), dmap(d), r))
+//@   unfold MatchD(boxed(m), got, dmap(d), r) == MatchD(m.Matcher, relem(got), dmap(d), r)
 
 // A non-nil interface pattern matches only non-nil interfaces whose dynamic value is an instance.
 //@ func (m InterfaceMatcher) Match(got, d, r) (d1, ok)
 //@   requires m.Matcher != nil
-//@   unfold MatchOK(boxed(m), got, d, r) == (kind(got) == 20 && !risnil(got) && MatchOK(m.Matcher, relem(got), d, r))
-//@   unfold MatchD(boxed(m), got, d, r) == MatchD(m.Matcher, relem(got), d, r)
+//@   unfold MatchOK(boxed(m), got, dmap(d), r) == (kind(got) == 20 && !risnil(got) && MatchOK(m.Matcher, relem(got), dmap(d), r))
+//@   unfold MatchD(boxed(m), got, dmap(d), r) == MatchD(m.Matcher, relem(got), dmap(d), r)
 
 // A scalar (operator, literal text, name, channel direction, ...) matches only the identical scalar of the same type.
 //@ func (m ValueMatcher) Match(got, d, r) (d1, ok)
-//@   unfold MatchOK(boxed(m), got, d, r) == (m.Type == rtype(got) && m.Value == rvIface(got))
-//@   unfold MatchD(boxed(m), got, d, r) == d
+//@   unfold MatchOK(boxed(m), got, dmap(d), r) == (m.Type == rtype(got) && m.Value == rvIface(got))
+//@   unfold MatchD(boxed(m), got, dmap(d), r) == dmap(d)
 
 // An AST node narrows the region to the node itself and otherwise defers to the wrapped matcher.
 //@ func (m GenericNodeMatcher) Match(got, d, r) (d1, ok)
 //@   requires m.Matcher != nil
 //@   requires typing: !risnil(got) ==> implements(rvIface(got), "go/ast.Node")
-//@   unfold MatchOK(boxed(m), got, d, r) == MatchOK(m.Matcher, got, d, ite(risnil(got), r, nodeRegionOf(rvIface(got))))
-//@   unfold MatchD(boxed(m), got, d, r) == MatchD(m.Matcher, got, d, ite(risnil(got), r, nodeRegionOf(rvIface(got))))
+//@   unfold MatchOK(boxed(m), got, dmap(d), r) == MatchOK(m.Matcher, got, dmap(d), ite(risnil(got), r, nodeRegionOf(rvIface(got))))
+//@   unfold MatchD(boxed(m), got, dmap(d), r) == MatchD(m.Matcher, got, dmap(d), ite(risnil(got), r, nodeRegionOf(rvIface(got))))
 
 //@ func nodeRegion(n) (r)
 //@   requires n != nil
 //@   ensures r == nodeRegionOf(n)
 //@   assigns nothing
+
+// Positions are compared by validity only: a pattern position matches a source position iff both
+// are valid or both are invalid (this is how `...` after a call argument, `=` in a type alias,
+// parentheses of a declaration group etc. are told apart).
+//@ func (m PosMatcher) Match(v, d, r) (d1, ok)
+//@   requires typing: rvIface(v).typ == dyn("go/token.Pos")
+//@   unfold MatchOK(boxed(m), v, dmap(d), r) == ((m.Pos != 0) == (rvIface(v).val != 0))
+//@   unfold MatchD(boxed(m), v, dmap(d), r) == posPushed(m.Fset, dmap(d), m.Pos, rvIface(v).val)
+
+//@ func pushPosMatch(fset, d, patchPos, matchedPos) (d1)
+//@   requires d != nil
+//@   unfold-post posPushed(fset, dmap(d), patchPos, matchedPos) == dmap(d1)
+//@   ensures dmap(d1) == posPushed(fset, dmap(d), patchPos, matchedPos)
+//@   ensures [C02] keepsBindings(dmap(d), dmap(d1))
+//@   ensures d1 != nil
+//@   assigns nothing
+
+// nilMatcher / successMatcher: a predicate on the value; the data is returned unchanged.
+//@ func (f matcherFunc) Match(v, d, r) (d1, ok)
+//@   requires f != nil
+//@   unfold MatchOK(boxed(f), v, dmap(d), r) == mfApply(f, v)
+//@   unfold MatchD(boxed(f), v, dmap(d), r) == dmap(d)
+
+//@ func funcval:github.com/uber-go/gopatch/internal/engine.matcherFunc(v) (r)
+//@   ensures r == mfApply(self, v)
+//@   assigns nothing
+
+// A metavariable matches a value of its declared kind; its first occurrence binds it, later
+// occurrences must be accepted by the matcher captured at the first one (compiled from the
+// bound tree, so it accepts exactly the syntactically identical trees), starting from empty data.
+//@ func (m MetavarMatcher) Match(got, d, r) (d1, ok)
+//@   requires m.TypeMatches != nil
+//@   requires typing: dmap(d)[mvKey(m.Name)] != nil ==> storedMatcher(dmap(d)[mvKey(m.Name)]) != nil
+//@   unfold MatchOK(boxed(m), got, dmap(d), r) == (kindOK(m.TypeMatches, rtype(got)) && (dmap(d)[mvKey(m.Name)] != nil ==> MatchOK(storedMatcher(dmap(d)[mvKey(m.Name)]), got, emptyMap(), r)))
+//@   unfold MatchD(boxed(m), got, dmap(d), r) == ite(dmap(d)[mvKey(m.Name)] != nil, dmap(d), store(dmap(d), mvKey(m.Name), captured(m.Fset, got, r)))
+
+//@ func funcval:github.com/uber-go/gopatch/internal/engine.MetavarMatcher.TypeMatches(t) (r)
+//@   ensures r == kindOK(self, t)
+//@   assigns nothing
+
+//@ func isIdent(t) (r)
+//@   ensures [C02] identifier-kind: r == (t == global("github.com/uber-go/gopatch/internal/goast.IdentPtrType"))
+//@   assigns nothing
+
+//@ func isExpression(t) (r)
+//@   requires t != nil
+//@   ensures [C02] expression-kind: r == timplements(t, global("github.com/uber-go/gopatch/internal/goast.ExprType"))
+//@   assigns nothing
+
+// Capturing compilers (no metavariables in scope): the results are immutable values and are
+// treated as functions of the bound tree (compiledM / compiledR); that the captured matcher
+// accepts exactly the trees syntactically identical to the bound one is the compile-side claim.
+//@ func newMatcherCompiler
+//@   inline
+//@ func newReplacerCompiler
+//@   inline
+//@ func (c *matcherCompiler) compile(v) (m)
+//@   trusted compile-side summary (recursive reflection walk over the pattern); see DESIGN: Level 2
+//@   assigns c.dots, elems(c.dots)
+//@   ensures m != nil
+//@   ensures c.meta == nil ==> m == compiledM(c.fset, v, c.patchStart, c.patchEnd)
+//@   ensures [C02] c.meta == nil ==> forall w RV, rr S_engine_Region {MatchOK(m, w, emptyMap(), rr)} :: MatchOK(m, w, emptyMap(), rr) == EqTree(v, w)
+//@ func (c *replacerCompiler) compile(v) (m)
+//@   trusted compile-side summary
+//@   assigns c.dots, elems(c.dots)
+//@   ensures m != nil
+//@   ensures c.meta == nil ==> m == compiledR(c.fset, v, c.patchStart, c.patchEnd)
